@@ -97,6 +97,8 @@ class TimeDomainSolution(CircuitSolution):
         self.w = frequency_components(self.circuit, self.w_max)
         networks = transform(self.circuit, w=self.w)
         self._solutions = [self.solver(network) for network in networks]
+        if len(self.w) == 0:
+            transform(self.circuit, w=[0])
 
     def get_voltage(self, component_id: str) -> TimeDomainFunction:
         _require_component(self.circuit, component_id)
@@ -127,6 +129,8 @@ class FrequencyDomainSolution(CircuitSolution):
     def __post_init__(self):
         self.w = np.array(frequency_components(self.circuit, self.w_max))
         self._solutions = np.array([ComplexSolution(circuit=self.circuit, solver=self.solver, w=w, peak_values=True) for w in self.w])
+        if len(self.w) == 0:
+            transform(self.circuit, w=[0])
 
     def _series(self, values: np.ndarray) -> FrequencyDomainSeries:
         if self.one_sided:
